@@ -442,6 +442,27 @@ def run(ctx):
             read_cases(c, p_all, p_idx, p_seek)
         three("", p_all, p_idx, p_seek)
 
+    # ---- 2b. a long capture: counts, skips and indices beyond 256 (CPython caches small ints only up to 256: identity and
+    #          equality of integers part ways there; one-octet quantities wrap there)
+    nlong = 300 if quick else 700
+    ms = [small_valid(rng) for _ in range(nlong)]
+    o = R.append([], ms)
+    c = dict(ms=ms, file=o[1:], dom=all(in_domain(m) for m in ms), lens=[spec_rec_len(m) for m in ms])
+    if o[0] != 0 or not c["dom"]:
+        ctx.oracle_fail("append_all refuses a list of %d valid messages" % nlong, dict(n=nlong), key="c15-append")
+    else:
+        p_all, p_idx, p_seek = [], [], []
+        for (sk, cnt) in [(None, 255), (None, 256), (None, 257), (0, 258), (40, 257), (1, nlong - 1), (None, nlong), (None, nlong + 1), (256, 2), (257, None), (258, 1), (nlong, None)]:
+            p_all.append((c["file"], sk, cnt))
+            check_all(c, c["file"], sk, cnt, c["ms"], "long capture", "c15-slice")
+            ctx.nontrivial(("long-slice", sk, cnt))
+        for i in (255, 256, 257, nlong - 1, nlong):
+            p_idx.append((c["file"], i))
+            p_seek.append((c["file"], i))
+            check_idx(c, c["file"], i, c["ms"], "long capture", "c15-index")
+        three("-long", p_all, p_idx, p_seek)
+    ctx.count("long_capture_messages", nlong)
+
     # ---- 3. truncation
     # exact comparison at sampled offsets (all record boundaries -1/0/+1, header boundaries +2/+3/+4, a few random ones)
     def cut_cases(c, p_all, p_idx, p_seek):
